@@ -9,10 +9,10 @@ LEVEL_TEXT = ("Deductive part (vcgen/z3, all inputs, over the axiomatised pysam 
               "Bounded stand-in: whole `whatshap phase` runs (VCF-only phase inputs, no BAM needed) on generated multi-sample, multi-chromosome VCFs "
               "with arbitrary INFO/FORMAT fields, missing/partial genotypes, multi-ALT, symbolic and duplicate records and pre-existing phasing, over "
               "--sample/--chromosome selections, both tags and --only-snvs; the output is compared with the input record by record by an independent "
-              "text differ that allows exactly the changes the statement allows. The frame contract of PhasedVcfWriter.write is not yet discharged "
-              "deductively (pysam record model pending), so nothing is claimed as proved.")
+              "text differ that allows exactly the changes the statement allows. The main loop of PhasedVcfWriter.write is not under deductive contract "
+              "(only the functions named above are).")
 LEVEL_NOTE = "Trusted: htslib's text round trip of untouched fields (exercised by the differ itself); generator covers the stated shapes by seeded sampling, not exhaustively."
-TECHNIQUE = "runtime contract on run_whatshap/PhasedVcfWriter (frame + allowed-change differ) over generated VCFs; bounded stand-in for the deductive frame contract"
+TECHNIQUE = "contract-based deductive verification of _remove_existing_phasing, _iterrecords, write_unchanged over a pysam model (vcgen, z3) + runtime contract on run_whatshap (frame + allowed-change differ) over generated VCFs"
 D_MODULES = ["contracts.vcf_py"]
 EXPLANATION = LEVEL_TEXT
 TRUSTED_BASE = ["independent VCF text parser in scenario/vcf.py", "pysam/htslib serialisation"]
